@@ -329,6 +329,7 @@ class Engine:
         self.dpos = 0
         self.pc = []
         self.trace = [] if __import__("os").environ.get("PYVC_DEBUG") else None
+        self.suppress_stack = []
         L.ENTAILS = self.entails
         self.counter = 0
         self.loop_seen = {}
@@ -415,6 +416,14 @@ class Engine:
             res = s2.check() != z3.unsat
         self.feas_cache[key] = res
         return res
+
+    def suppressed(self, exc_type):
+        """True when raising exc_type right now would be swallowed by an enclosing
+        `with suppress(...)` whose body is this single statement (so raising or not is unobservable)."""
+        if not self.suppress_stack:
+            return False
+        excs, single = self.suppress_stack[-1]
+        return single and any(issubclass(exc_type, t) for t in excs)
 
     def entails(self, cond):
         """pc implies cond (ground check only; False when unsure)"""
@@ -546,6 +555,8 @@ class Engine:
         kind, val = outcome
         self.paths.append((list(self.pc), outcome, pid))
         post = self.views(self.args)
+        # ghost access to the function's locals at exit (for clauses about objects it created)
+        post.locals_ = self.loop_views(self.root_frame)
         if kind == "raise":
             e = val
             allowed = None
@@ -560,7 +571,7 @@ class Engine:
             self.oblige(
                 f"{base}/raises:{e.exc_type.__name__}/path:{pid}",
                 goal,
-                c.props,
+                c.raises_props if c.raises_props is not None else c.props,
                 "raises",
                 {"exc": e.exc_type.__name__, "msg": str(e.msg)[:80]},
             )
@@ -570,7 +581,8 @@ class Engine:
             for et, cond in c.raises.items():
                 g = cond(self.pre)
                 self.oblige(
-                    f"{base}/must-raise:{et.__name__}/path:{pid}", S.Not(g), c.props, "must-raise"
+                    f"{base}/must-raise:{et.__name__}/path:{pid}", S.Not(g),
+                    c.raises_props if c.raises_props is not None else c.props, "must-raise"
                 )
         r = self.view(val)
         self.result = val
@@ -734,11 +746,14 @@ class Engine:
             raise Unsupported("with: several items")
         cm = self.ev(s.items[0].context_expr, fr)
         if isinstance(cm, contextlib.suppress):
+            self.suppress_stack.append((cm._exceptions, len(s.body) == 1))
             try:
                 self.exec_block(s.body, fr)
             except PyRaise as e:
                 if not any(issubclass(e.exc_type, t) for t in cm._exceptions):
                     raise
+            finally:
+                self.suppress_stack.pop()
             return
         raise Unsupported(f"with {cm!r}")
 
